@@ -101,7 +101,7 @@ def conc_case(rng, nth, ncalls):
                  {"kind": "call", "mid": 2, "opener": "some", "pat": {"matcher": 255, "dbg": fresh(), "ops": [("ret", fresh())]}}]
     failing = [(1, 0), (0, 5), (3, 1), (0, 0), (2, 1), (0, 1)]
     threads = [[rng.choice(failing) for _ in range(ncalls or rng.randint(1, 2))] for _ in range(nth)]
-    return {"partial": False, "terms": terms, "threads": threads, "sched": []}
+    return {"partial": False, "terms": terms, "threads": threads, "sched": [], "shared": rng.random() < 0.5}
 
 
 class ConcurrentErrors:
